@@ -7,9 +7,14 @@ pub enum Ev<Req, Res, E> {
     Sleep(Duration), Withdraw(bool), Deposit, FutureCreated, Opaque,
 }
 /// unit-specific decisions recorded by the unit's own shims
-pub enum Note { Gate(bool), Record { failure: bool, nanos: nat }, Kernel(int), Budget(bool), Lock }
+pub enum Note { Gate(bool), Record { failure: bool, nanos: nat }, Kernel(int), Budget(bool), Lock, Feedback { success: bool } }
 pub tracked struct Trace<Req, Res, E> {
     pub ghost notes: Seq<Note>,
+    pub ghost guarded: nat,                 // duties held by an RAII guard whose Drop is under contract
+    pub ghost incs: nat,                    // increments of the in-flight counter by this task
+    pub ghost decs: nat,                    // decrements of the in-flight counter by this task
+    pub ghost obs_inflight: Option<usize>,  // last in-flight value this task loaded
+    pub ghost obs_limit: Option<usize>,     // last limit this task obtained from the algorithm
     pub ghost reqs: Seq<Req>,               // the requests handed to the inner service, in order
     pub ghost slept_since_done: nat,        // nanoseconds slept since the last InnerDone
     pub ghost granted_since_done: bool,     // a budget grant was obtained since the last InnerDone
@@ -32,7 +37,7 @@ pub tracked struct Trace<Req, Res, E> {
 impl<Req, Res, E> Trace<Req, Res, E> {
     pub open spec fn fresh(self) -> bool {
         self.ev.len() == 0 && self.calls == 0 && self.done == 0 && self.held.len() == 0 && self.held.finite() && self.unguarded == 0 && self.slept == 0
-            && self.notes.len() == 0 && self.reqs.len() == 0 && self.slept_since_done == 0 && !self.granted_since_done && !self.denied && self.fb_calls == 0 && self.fb_req is None && self.fb_done is None
+            && self.notes.len() == 0 && self.guarded == 0 && self.incs == 0 && self.decs == 0 && self.obs_inflight is None && self.obs_limit is None && self.reqs.len() == 0 && self.slept_since_done == 0 && !self.granted_since_done && !self.denied && self.fb_calls == 0 && self.fb_req is None && self.fb_done is None
             && self.last_req is None && self.last_done is None && !self.admitted && !self.created && self.blocked == 0
     }
 }
